@@ -156,7 +156,7 @@ func c07vRunValues(pool int, prog []c07vOp) (sig, what string) {
 	return "", ""
 }
 
-var c07vMapOps = []string{"putint1", "putint2", "putstr", "putb", "putmap", "put2maps", "removem", "nestedput", "remove", "removeif", "clear", "ensurecap", "fromraw"}
+var c07vMapOps = []string{"putint1", "putint2", "putstr", "putb", "putmap", "put2maps", "removem", "nestedput", "remove", "removeif", "removeif-set", "removeif-moveout", "clear", "ensurecap", "fromraw"}
 
 func c07vRunMaps(pool int, prog []c07vOp) (sig, what string) {
 	step := -1
@@ -215,6 +215,38 @@ func c07vRunMaps(pool int, prog []c07vOp) (sig, what string) {
 			for k := range mm {
 				if k != "b" {
 					delete(mm, k)
+				}
+			}
+		case "removeif-set":
+			// a predicate may work on the entries it keeps (the split helpers of the batch processor and the exporter helper
+			// use RemoveIf that way on their slices): it removes "m" and overwrites every other entry's value
+			m.RemoveIf(func(k string, v Value) bool {
+				if k == "m" {
+					return true
+				}
+				v.SetStr("T:" + k)
+				return false
+			})
+			delete(mm, "m")
+			for k := range mm {
+				mm[k] = "T:" + k
+			}
+		case "removeif-moveout":
+			// the predicate moves every value out of the map and keeps the (now empty) entries; what was moved out belongs
+			// to its new owner alone
+			var out []Value
+			m.RemoveIf(func(_ string, v Value) bool {
+				x := NewValueEmpty()
+				v.MoveTo(x)
+				out = append(out, x)
+				return false
+			})
+			for k := range mm {
+				mm[k] = nil
+			}
+			for _, x := range out {
+				if x.Type() == ValueTypeMap {
+					x.Map().PutInt("moved-out", 1)
 				}
 			}
 		case "clear":
